@@ -1012,7 +1012,7 @@ func init() {
 	mc.Register(&mc.Prop{
 		ID:    "C16",
 		Level: "model_checking",
-		Rule: "schedule part: stateless DFS over all interleavings of the real Phase goroutines (sequence producer, cpus workers, closer, consuming harness thread) with iterative preemption bounds 0..2 (quick) / 0..3 (thorough), 3 sequences x cpus 1..3 x {translate, nt}; error path with an untranslatable sequence in each position; no reference + a sequence without similarity. " +
+		Rule: "Command line: goalign phase and phasent (one thread) on 4 sequence sets x reference given / detected x --reverse x --cut-end x genetic code x 7 sets of given flags among --len-cutoff, --match-cutoff, --match, --mismatch, --gap-open, --gap-extend, and goalign orf (--reverse) on 7 sets: the files written must be those of the library configured the same way (documented defaults for flags not given). " + "schedule part: stateless DFS over all interleavings of the real Phase goroutines (sequence producer, cpus workers, closer, consuming harness thread) with iterative preemption bounds 0..2 (quick) / 0..3 (thorough), 3 sequences x cpus 1..3 x {translate, nt}; error path with an untranslatable sequence in each position; no reference + a sequence without similarity. " +
 			"function-entry part: 2 sequences, 2 workers, translate on/off, every function entry of goalign (functions of >= 4 statements) an additional scheduling point, preemption bound 1. " +
 			"input part: LongestORF on all sequences of length <=9 (quick) / <=11 (thorough) over {A,T,G,C} plus a family of overlapping-frame sequences (upper/lower case, U) and every concatenation of up to 7 (thorough 8) codon tokens from {ATG,TAA,TGA,AAA,C} against a brute-force scan; SeqBag.LongestORF on pairs; inputs unmodified by the ORF search (both strands) and by Phase without reference on sequences holding U, lower case, X, N, ? ; a reference with codons that read differently under the three codes x translate on/off; Phase on ORF copies with 5 five-prime flanks x (exact | 18 single substitutions | reverse complement) x 3 three-prime flanks, alone / with a no-similarity sequence / in a set of 3, x translate x reverse x cut-end x genetic codes x reference supplied or not; two references in both orders against sequences that open with a 5'-truncated piece of one and contain the other verbatim (and truncated piece forward + whole ORF on the reverse strand). " +
 			"distinct_nontrivial counts distinct (case, schedule) executions plus input cases whose result was fully compared.",
@@ -1021,8 +1021,11 @@ func init() {
 			"Phase without a reference is compared with Phase given the longest ORF only when that ORF is unique",
 			"sequential consistency below the race check; scheduling points at synchronisation operations only",
 		},
-		Tasks: c16Tasks,
+		Tasks: func(tier string) []mc.Task { return append(c16Tasks(tier), c16CLITasks()...) },
 		Replay: func(c *mc.Ctx, payload json.RawMessage) {
+			if c16CLIReplay(c, payload) {
+				return
+			}
 			var cs c16Case
 			if err := json.Unmarshal(payload, &cs); err != nil {
 				c.Fatal("bad payload: %v", err)
